@@ -5,18 +5,30 @@ package cache
 // C15 — the cache cluster as a user of hash.ConsistentHash: cache.New builds the ring with
 // AddWithWeight(cacheNode, conf.Weight) (a cacheNode is a Stringer: its repr is the redis address) and every
 // method dispatches a key with cc.dispatcher.Get(key). The harness builds clusters from generated
-// configurations (NonBlock: no connection is made) and prints, for a fixed probe key set, the address of
-// the node the key is dispatched to; the Lean driver compares with the model's Get on the ring built by
-// the same AddWithWeight sequence.
+// configurations (NonBlock; every address is served by an intercepting client, see
+// core/stores/redis/zz_verif_c15_hook.go: commands are recorded, nothing is dialled) and
+//   * prints, for a fixed probe key set, the address of the node the key is dispatched to (`build`),
+//   * CALLS the real methods of the Cache it got (`call`) and prints which node received which command,
+//   * runs the constructor in a child process for configurations on which it may terminate the process (`buildx`).
+// The Lean driver compares with the model's Get on the ring built by the same AddWithWeight sequence.
 //
 // section cfg:  user=cache probes=s:<key>,...
-// op:           build <addr>/<weight>,<addr>/<weight>,...   =>   g=<addr|->,...
+// ops:          build <addr>/<weight>,<addr>/<weight>,...   =>   g=<addr|->,...
+//               buildx <conf | ->                            =>   FATAL | g=<addr|->,...      (child process)
+//               call <Method>[+ok|+err|+nf] <key>[,<key>…]   =>   ret=<nil|nf|err> c=<addr>/<cmd>/<key|key…>;…  (sorted) | c=-
+//               (per intercepted command: the node it was sent to, its name, those of its arguments that are keys of the call)
 
 import (
+	"context"
 	"errors"
 	"fmt"
+	"os"
+	"os/exec"
+	"sort"
 	"strings"
+	"sync"
 	"testing"
+	"time"
 
 	"github.com/zeromicro/go-zero/core/stores/redis"
 	"github.com/zeromicro/go-zero/core/syncx"
@@ -30,6 +42,103 @@ var c15Addrs = []string{
 }
 
 var c15Weights = []int{100, 100, 100, 50, 1, 10, 99, 0, -5, 101, 150, 1000, 20, 30}
+
+var c15CacheMethods = []string{
+	"Del", "DelCtx", "Get", "GetCtx", "Set", "SetCtx", "SetWithExpire", "SetWithExpireCtx",
+	"Take+ok", "Take+err", "Take+nf", "TakeCtx+ok", "TakeCtx+err", "TakeCtx+nf",
+	"TakeWithExpire+ok", "TakeWithExpire+err", "TakeWithExpireCtx+ok", "TakeWithExpireCtx+nf",
+	// the Ctx entry points with a context that is already cancelled: the key is dispatched all the same
+	"GetCtx+cancel", "DelCtx+cancel", "SetCtx+cancel", "TakeCtx+cancel", "TakeWithExpireCtx+cancel", "SetWithExpireCtx+cancel",
+}
+
+// c15ConfGen generates one configuration; classes:
+//   random     1–6 entries, random weights (≤ 0 and > 100 included), neighbouring addresses (label coincidences)
+//   duplicate  an address configured twice
+//   drained    every node but ONE (or two) has a weight ≤ 0, the weighted one at a random position
+//   single     exactly one entry
+// `fatal` asks for a configuration without any positive weight (or none at all): the constructors terminate the process.
+func c15ConfGen(r *verifh.Rng, fatal bool) []string {
+	if fatal {
+		n := r.Range(0, 3)
+		conf := make([]string, 0, n)
+		for j := 0; j < n; j++ {
+			conf = append(conf, fmt.Sprintf("%s/%d", c15Addrs[r.Intn(len(c15Addrs))], r.Pick(0, 0, -5, -100, -9223372036854775808)))
+		}
+		return conf
+	}
+	n := r.Range(1, 6)
+	start := r.Intn(len(c15Addrs))
+	conf := make([]string, 0, n)
+	total := 0
+	drained := n >= 2 && r.Chance(1, 3)
+	keep := r.Intn(n)
+	keep2 := -1
+	if drained && n >= 3 && r.Chance(1, 3) {
+		keep2 = r.Intn(n)
+	}
+	for j := 0; j < n; j++ {
+		a := c15Addrs[(start+j)%len(c15Addrs)]
+		if r.Chance(1, 4) {
+			a = c15Addrs[r.Intn(len(c15Addrs))]
+		}
+		w := c15Weights[r.Intn(len(c15Weights))]
+		if drained {
+			if j == keep || j == keep2 {
+				w = r.Pick(100, 50, 1, 150)
+			} else {
+				w = r.Pick(0, 0, -5)
+			}
+		}
+		if w > 0 {
+			total += w
+		}
+		conf = append(conf, fmt.Sprintf("%s/%d", a, w))
+	}
+	if !drained && r.Chance(1, 3) {
+		// an address configured twice: the later entry replaces the earlier one, whatever its weight
+		d := conf[r.Intn(len(conf))]
+		conf = append(conf, fmt.Sprintf("%s/%d", d[:strings.LastIndexByte(d, '/')], r.Pick(0, -5, 1, 100, 40)))
+	}
+	if total <= 0 {
+		// New / NewStore terminate the process when no node has a positive weight
+		conf[0] = conf[0][:strings.LastIndexByte(conf[0], '/')] + "/100"
+	}
+	return conf
+}
+
+func c15Perm(r *verifh.Rng, conf []string) []string {
+	perm := append([]string{}, conf...)
+	if r.Bool() {
+		k := r.Range(1, len(perm)-1)
+		perm = append(perm[k:], perm[:k]...)
+	} else {
+		for a, b := 0, len(perm)-1; a < b; a, b = a+1, b-1 {
+			perm[a], perm[b] = perm[b], perm[a]
+		}
+	}
+	return perm
+}
+
+// c15Calls: calls of the public methods for the instance built last
+func c15Calls(r *verifh.Rng, methods []string, keys []string, n int, multi func(m string) bool) []string {
+	var ops []string
+	key := func() string { return strings.TrimPrefix(keys[r.Intn(len(keys))], "s:") }
+	for j := 0; j < n; j++ {
+		m := methods[r.Intn(len(methods))]
+		args := []string{key()}
+		if multi(m) {
+			switch r.Intn(4) {
+			case 0: // one key
+			case 1:
+				args = append(args, key(), key(), key(), key(), key())
+			default:
+				args = append(args, key(), key())
+			}
+		}
+		ops = append(ops, "call "+m+" "+strings.Join(args, ","))
+	}
+	return ops
+}
 
 func c15UserGen(user string, seedSalt uint64) func(r *verifh.Rng) []verifh.Section {
 	return func(r *verifh.Rng) []verifh.Section {
@@ -55,45 +164,27 @@ func c15UserGen(user string, seedSalt uint64) func(r *verifh.Rng) []verifh.Secti
 			}
 			var ops []string
 			for k := r.Range(2, 5); k > 0; k-- {
-				n := r.Range(1, 6)
-				start := r.Intn(len(c15Addrs))
-				conf := make([]string, 0, n)
-				total := 0
-				for j := 0; j < n; j++ {
-					a := c15Addrs[(start+j)%len(c15Addrs)]
-					if r.Chance(1, 4) {
-						a = c15Addrs[r.Intn(len(c15Addrs))]
-					}
-					w := c15Weights[r.Intn(len(c15Weights))]
-					if w > 0 {
-						total += w
-					}
-					conf = append(conf, fmt.Sprintf("%s/%d", a, w))
-				}
-				if r.Chance(1, 3) {
-					// an address configured twice: the later entry replaces the earlier one, whatever its weight
-					d := conf[r.Intn(len(conf))]
-					conf = append(conf, fmt.Sprintf("%s/%d", d[:strings.LastIndexByte(d, '/')], r.Pick(0, -5, 1, 100, 40)))
-				}
-				if total <= 0 {
-					// New / NewStore terminate the process when no node has a positive weight
-					conf[0] = conf[0][:strings.IndexByte(conf[0], '/')] + "/100"
-				}
+				conf := c15ConfGen(r, false)
 				ops = append(ops, "build "+strings.Join(conf, ","))
-			if len(conf) >= 2 && r.Chance(1, 2) {
-				// a SECOND instance from the same entries in another order (rotated or reversed): with distinct
-				// addresses the membership is the same and so must be the dispatch of every key
-				perm := append([]string{}, conf...)
-				if r.Bool() {
-					k := r.Range(1, len(perm)-1)
-					perm = append(perm[k:], perm[:k]...)
-				} else {
-					for a, b := 0, len(perm)-1; a < b; a, b = a+1, b-1 {
-						perm[a], perm[b] = perm[b], perm[a]
-					}
+				ops = append(ops, c15Calls(r, c15CacheMethods, probes, r.Range(2, 6), func(m string) bool { return strings.HasPrefix(m, "Del") })...)
+				if len(conf) >= 2 && r.Chance(1, 2) {
+					// a SECOND instance from the same entries in another order (rotated or reversed): with distinct
+					// addresses the membership is the same and so must be the dispatch of every key
+					ops = append(ops, "build "+strings.Join(c15Perm(r, conf), ","))
+					ops = append(ops, c15Calls(r, c15CacheMethods, probes, r.Range(0, 2), func(m string) bool { return strings.HasPrefix(m, "Del") })...)
 				}
-				ops = append(ops, "build "+strings.Join(perm, ","))
 			}
+			if i%3 == 0 {
+				// the constructor in a child process: configurations without a positive weight, and one control
+				f := c15ConfGen(r, true)
+				if len(f) == 0 {
+					ops = append(ops, "buildx -")
+				} else {
+					ops = append(ops, "buildx "+strings.Join(f, ","))
+				}
+				if r.Chance(1, 2) {
+					ops = append(ops, "buildx "+strings.Join(c15ConfGen(r, false), ","))
+				}
 			}
 			secs = append(secs, verifh.Section{Cfg: "user=" + user + " probes=" + strings.Join(probes, ","), Ops: ops})
 		}
@@ -103,11 +194,15 @@ func c15UserGen(user string, seedSalt uint64) func(r *verifh.Rng) []verifh.Secti
 
 func c15Conf(tok string) ClusterConf {
 	var c ClusterConf
+	if tok == "-" {
+		return c
+	}
 	for _, e := range strings.Split(tok, ",") {
 		i := strings.LastIndexByte(e, '/')
 		if i < 0 {
 			panic("verif: bad conf " + tok)
 		}
+		redis.VerifC15Intercept(e[:i])
 		c = append(c, NodeConf{
 			RedisConf: redis.RedisConf{Host: e[:i], Type: redis.NodeType, NonBlock: true},
 			Weight:    verifh.Atoi(e[i+1:]),
@@ -116,36 +211,195 @@ func c15Conf(tok string) ClusterConf {
 	return c
 }
 
+var c15ErrNotFound = errors.New("not found")
+
+// c15Dispatch: what every method of cacheCluster does with its key
+func c15Dispatch(c Cache, keys []string) string {
+	out := make([]string, len(keys))
+	for i, key := range keys {
+		switch cc := c.(type) {
+		case cacheCluster:
+			v, ok := cc.dispatcher.Get(key)
+			if !ok {
+				out[i] = "-"
+			} else {
+				out[i] = v.(cacheNode).rds.Addr
+			}
+		case cacheNode:
+			out[i] = cc.rds.Addr
+		default:
+			out[i] = "?"
+		}
+	}
+	return "g=" + strings.Join(out, ",")
+}
+
+// c15Recorder collects the intercepted commands of one call: node address, command name and those of its arguments
+// that are keys of the call (values, expiries with their random jitter etc. are left out: observations are deterministic)
+type c15Recorder struct {
+	mu   sync.Mutex
+	keys map[string]bool
+	recs []string
+}
+
+func c15NewRecorder(keys []string) *c15Recorder {
+	r := &c15Recorder{keys: map[string]bool{}}
+	for _, k := range keys {
+		r.keys[k] = true
+	}
+	return r
+}
+
+func (r *c15Recorder) rec(addr string, args []any) {
+	cmd := "?"
+	var ks []string
+	for i, a := range args {
+		s, ok := a.(string)
+		if i == 0 {
+			cmd = strings.ToLower(fmt.Sprint(a))
+			continue
+		}
+		if ok && r.keys[s] {
+			ks = append(ks, s)
+		}
+	}
+	r.mu.Lock()
+	r.recs = append(r.recs, addr+"/"+cmd+"/"+strings.Join(ks, "|"))
+	r.mu.Unlock()
+}
+
+func (r *c15Recorder) String() string {
+	r.mu.Lock()
+	defer r.mu.Unlock()
+	if len(r.recs) == 0 {
+		return "c=-"
+	}
+	sort.Strings(r.recs)
+	return "c=" + strings.Join(r.recs, ";")
+}
+
+func c15CallCache(c Cache, method string, keys []string) (ret string) {
+	defer func() {
+		if p := recover(); p != nil {
+			ret = "ret=PANIC"
+		}
+	}()
+	ctx := context.Background()
+	name, variant := method, ""
+	if i := strings.IndexByte(method, '+'); i >= 0 {
+		name, variant = method[:i], method[i+1:]
+	}
+	if variant == "cancel" {
+		c, cancel := context.WithCancel(ctx)
+		cancel()
+		ctx = c
+	}
+	boom := errors.New("db down")
+	query := func(v any) error {
+		switch variant {
+		case "err":
+			return boom
+		case "nf":
+			return c15ErrNotFound
+		}
+		*v.(*string) = "value"
+		return nil
+	}
+	queryX := func(v any, _ time.Duration) error { return query(v) }
+	var v string
+	var err error
+	switch name {
+	case "Del":
+		err = c.Del(keys...)
+	case "DelCtx":
+		err = c.DelCtx(ctx, keys...)
+	case "Get":
+		err = c.Get(keys[0], &v)
+	case "GetCtx":
+		err = c.GetCtx(ctx, keys[0], &v)
+	case "Set":
+		err = c.Set(keys[0], "value")
+	case "SetCtx":
+		err = c.SetCtx(ctx, keys[0], "value")
+	case "SetWithExpire":
+		err = c.SetWithExpire(keys[0], "value", time.Minute)
+	case "SetWithExpireCtx":
+		err = c.SetWithExpireCtx(ctx, keys[0], "value", time.Minute)
+	case "Take":
+		err = c.Take(&v, keys[0], query)
+	case "TakeCtx":
+		err = c.TakeCtx(ctx, &v, keys[0], query)
+	case "TakeWithExpire":
+		err = c.TakeWithExpire(&v, keys[0], queryX)
+	case "TakeWithExpireCtx":
+		err = c.TakeWithExpireCtx(ctx, &v, keys[0], queryX)
+	default:
+		return "bad-method"
+	}
+	switch {
+	case err == nil:
+		return "ret=nil"
+	case errors.Is(err, c15ErrNotFound):
+		return "ret=nf"
+	}
+	return "ret=err"
+}
+
+// c15Child runs the constructor in a child process (it calls log.Fatal for a configuration without nodes / weights)
+func c15Child(test, conf string, keys []string) string {
+	cmd := exec.Command(os.Args[0], "-test.run", "^"+test+"$", "-test.count=1")
+	cmd.Env = append(os.Environ(), "VERIF_C15_CHILD=1", "VERIF_C15_CONF="+conf, "VERIF_C15_KEYS="+strings.Join(keys, ","),
+		"VERIF_TRACE_OUT=", "VERIF_OPS_IN=")
+	out, err := cmd.CombinedOutput()
+	for _, l := range strings.Split(string(out), "\n") {
+		if strings.HasPrefix(l, "C15CHILD ") {
+			return strings.TrimPrefix(l, "C15CHILD ")
+		}
+	}
+	if err != nil && strings.Contains(string(out), "no cache nodes") {
+		return "FATAL"
+	}
+	return "CHILD-FAILED"
+}
+
+// TestVerifC15CacheChild is the child side of `buildx` (does nothing unless asked by the parent)
+func TestVerifC15CacheChild(t *testing.T) {
+	if os.Getenv("VERIF_C15_CHILD") == "" {
+		t.Skip("child of TestVerifC15Cache only")
+	}
+	c := New(c15Conf(os.Getenv("VERIF_C15_CONF")), syncx.NewSingleFlight(), NewStat("c15"), c15ErrNotFound)
+	fmt.Println("C15CHILD " + c15Dispatch(c, strings.Split(os.Getenv("VERIF_C15_KEYS"), ",")))
+}
+
 func TestVerifC15Cache(t *testing.T) {
 	secs := verifh.Sections(c15UserGen("cache", 0))
+	stat := NewStat("c15")
 	verifh.Run(t, secs, func(cfg verifh.Cfg) (func(op []string) string, func()) {
 		var keys []string
 		for _, tok := range strings.Split(cfg.Str("probes", ""), ",") {
 			keys = append(keys, strings.TrimPrefix(tok, "s:"))
 		}
+		var inst Cache
 		step := func(op []string) string {
-			if len(op) != 2 || op[0] != "build" {
-				return "bad-op"
-			}
-			c := New(c15Conf(op[1]), syncx.NewSingleFlight(), nil, errors.New("not found"))
-			out := make([]string, len(keys))
-			for i, key := range keys {
-				switch cc := c.(type) {
-				case cacheCluster:
-					// what every method of cacheCluster does with its key
-					v, ok := cc.dispatcher.Get(key)
-					if !ok {
-						out[i] = "-"
-					} else {
-						out[i] = v.(cacheNode).rds.Addr
-					}
-				case cacheNode:
-					out[i] = cc.rds.Addr
-				default:
-					out[i] = "?"
+			switch {
+			case len(op) == 2 && op[0] == "build":
+				inst = New(c15Conf(op[1]), syncx.NewSingleFlight(), stat, c15ErrNotFound)
+				return c15Dispatch(inst, keys)
+			case len(op) == 2 && op[0] == "buildx":
+				inst = nil
+				return c15Child("TestVerifC15CacheChild", op[1], keys)
+			case len(op) == 3 && op[0] == "call":
+				if inst == nil {
+					return "no-instance"
 				}
+				args := strings.Split(op[2], ",")
+				rec := c15NewRecorder(args)
+				redis.VerifC15Recorder(rec.rec)
+				ret := c15CallCache(inst, op[1], args)
+				redis.VerifC15Recorder(nil)
+				return ret + " " + rec.String()
 			}
-			return "g=" + strings.Join(out, ",")
+			return "bad-op"
 		}
 		return step, nil
 	})
